@@ -137,6 +137,50 @@ def l3_isolated_marginal(chk, ctx, rng, n, forced=None):
     finally:
         I.use_old_timestep = old
 
+
+def l3_flag_table(chk, ctx, rng):
+    """'Frozen populations and nomut populations receive no new mutations' — exhaustively over the flags: starting from the ZERO
+    density (so everything present afterwards is new mutations), without migration, population k's axis line (all other
+    frequencies 0) is non-zero iff k is neither frozen nor (2-D) nomut, and nothing lies off the axis lines; constant and
+    time-dependent drivers; 2-D: all 16 (frozen1, frozen2, nomut1, nomut2); 3-5-D: all 2^d frozen vectors (5-D: a random half)."""
+    dadi = ctx['dadi']
+    for d in range(2, 6):
+        pts = {2: 9, 3: 7, 4: 6, 5: 5}[d]
+        xx = dadi.Numerics.default_grid(pts)
+        combos = []
+        for bits in range(2 ** d):
+            fr = [bool(bits >> i & 1) for i in range(d)]
+            if d == 2:
+                for nb in range(4): combos.append((fr, [bool(nb & 1), bool(nb >> 1 & 1)]))
+            else:
+                combos.append((fr, None))
+        if d == 5: combos = [c for c in combos if rng.random() < 0.5]
+        for fr, nm in combos:
+            for varying in (False, True):
+                nus = [gen.loguniform(rng, 0.3, 5) for _ in range(d)]
+                kw = kwargs_for(d, nus, {}, [0.0] * d, [0.5] * d, 1.0, fr, nm)
+                if varying:
+                    i0 = int(rng.integers(d))
+                    kw['nu%d' % (i0 + 1)] = (lambda t, v=nus[i0]: v * (1 + 0.4 * math.sin(40 * t)))
+                key = 'mutation-support:%dD:varying=%s' % (d, varying)
+                inp = dict(d=d, pts=pts, frozen=fr, nomut=nm, nus=nus, varying=varying, T=0.05)
+                chk.l3((key, tuple(fr), tuple(nm or ())))
+                try:
+                    out = integrate(dadi, d, np.zeros([pts] * d), xx, 0.05, **kw)
+                except Exception as e:
+                    chk.fail(key + ':raises:' + type(e).__name__, 'integrator raises %r' % (e,), inp); continue
+                off = out.copy()
+                for k in range(d):
+                    idx = tuple(slice(None) if l == k else 0 for l in range(d))
+                    line = out[idx]; off[idx] = 0
+                    allowed = not fr[k] and not (d == 2 and nm is not None and nm[k])
+                    got = bool(np.any(line[1:] != 0))
+                    if got != allowed:
+                        chk.fail(key + ':pop%d' % (k + 1), 'population %d (frozen=%s, nomut=%s) %s new mutations (max on its axis line %.3g)'
+                                 % (k + 1, fr[k], None if nm is None else nm[k], 'received' if got else 'received no', float(np.max(np.abs(line[1:])))), inp)
+                if np.any(off != 0):
+                    chk.fail(key + ':off-axis', 'density appeared off the single-population axis lines from a zero start without migration (max %.3g)' % float(np.max(np.abs(off))), inp)
+
 def l3_mass_per_kernel(chk, ctx, rng, n):
     """every kernel sweep conserves the trapezoid mass of every non-corner line; corner lines lose exactly the
     documented absorbing term; injection adds dt*theta0/(2*x[1]) per receiving population and nothing else."""
@@ -269,6 +313,7 @@ def run(chk, ctx):
     l3_isolated_marginal(chk, ctx, rng, 12 if q else 72, forced=[(d, k) for d in range(2, 6) for k in range(d)])
     l3_mass_per_kernel(chk, ctx, rng, 15 if q else 80)
     l3_reject(chk, ctx, rng, 1)
+    l3_flag_table(chk, ctx, rng)
 
 def replay(chk, ctx, data):
     run(chk, ctx)
